@@ -442,6 +442,19 @@ theorem simMod_core {cfg : Cfg} {am : Spec.AMod} {m m' : Module} (h : SimMod cfg
   exact ⟨by rw [e1]; exact h.connected, by rw [e2]; exact h.modId, by rw [e3]; exact h.unique, by rw [e4]; exact h.isLogger,
     by rw [e5]; exact h.isDaemon, by rw [e6]; exact h.name, by rw [e7]; exact h.pid, by rw [e8]; exact h.subs, h.noAll⟩
 
+/-- a connection closed in an extension of the log is not in the table afterwards (no module half-removed) -/
+theorem closed_gone {s s' : State} (ao' : AllOpen s') (j : J s') (ext : List Ev) (he : s'.out = s.out ++ ext) (u : Nat)
+    (hu : Ev.close u ∈ ext) : s'.find u = none := by
+  cases hf : s'.find u with
+  | none => rfl
+  | some m' =>
+    have h1 := isOpen_of_find hf (ao' u m' hf)
+    have h2 := j.phi u
+    have h3 : 0 < closeCnt s'.out u := by
+      rw [he]; unfold closeCnt; rw [List.countP_append]
+      have := closeCnt_pos hu; unfold closeCnt at this; omega
+    unfold phi at h2; rw [h1] at h2; simp at h2; omega
+
 /-- **Nested activity is replayed by `applyDepartures`.**  If the abstract state simulates the model state `s`, and the
 model moves to `s'` by nested manager activity only (between two points where no module is half-removed), then marking
 as departed exactly the connections closed in the events of that move restores the simulation. -/
